@@ -3,7 +3,7 @@ C04 — Every discrete interaction conserves energy and yields valid final state
 Property theorems only: ℝ reading of the `Num`-generic, script-driven model in Model/Interact.lean,
 which is run bit-exactly at `Float` against the real interactors by harness/interact.cc.
 Helper lemmas: Lemmas/InteractVec.lean, InteractKN.lean, InteractGG.lean, InteractIoni.lean,
-InteractRelax.lean.
+InteractRelax.lean, InteractMore.lean.
 
 Conventions.  `… = .done i sz rest` : the interactor returned interaction `i`, the allocator size
 is `sz`, `rest` is the unread script.  `canonical script` : every scripted uniform is in [0, 1).
@@ -13,7 +13,7 @@ A worst-case bound on the number of draws of a rejection loop does not exist (an
 stream can reject forever; the model returns `exhausted`); what is proved is the per-iteration
 acceptance bound for Klein–Nishina.
 -/
-import CelerVerif.Lemmas.InteractRelax
+import CelerVerif.Lemmas.InteractMore
 
 namespace CelerVerif.Interact
 open CelerVerif
@@ -701,6 +701,165 @@ theorem livermore_relaxation_energy_conserved (E m' b : ℝ) (d eDir : Vec3 ℝ)
   rw [← he.1, ← he.2]
   exact relaxation_energy_conserved m' shells ecut gcut shell script secs sum rest h
 
+/-! ## muon bremsstrahlung (full interactor; the differential cross section is a parameter of the
+    theorems and is modelled — `muBremsDcs` — for the bit-exact run) -/
+
+theorem mubrems_alloc_failure_is_failed (dcs : ℝ → ℝ) (cap size : ℕ) (E M cut : ℝ) (d : Vec3 ℝ)
+    (script : Script ℝ) (h : cap < size + 1) :
+    muBremsWith dcs cap size E M cut d script = .failed size := by
+  unfold muBremsWith; rw [alloc_none h]
+
+/-- ★ energy conservation for every cross section, script and input -/
+theorem mubrems_energy_conserved (dcs : ℝ → ℝ) (cap size : ℕ) (E M cut m' : ℝ) (d : Vec3 ℝ)
+    (script : Script ℝ) (i : Interaction ℝ) (sz : ℕ) (rest : Script ℝ)
+    (h : muBremsWith dcs cap size E M cut d script = .done i sz rest) :
+    i.energy + secondaryEnergy m' i.secondaries + i.deposit = E := by
+  obtain ⟨_, _, k, uc, uPhi, _, _, _, hi⟩ := mubrems_done h
+  rw [hi]; exact bremFinal_energy m' E d _ k _ uPhi
+
+/-- the photon energy lies in the CLOSED interval [cut_γ, T] (at ℝ; in floating point the upper
+    end can be exceeded by one ulp: known finding `endpoint-negative-energy:mubrems`), the muon
+    keeps a non-negative energy, the photon direction is a unit vector -/
+theorem mubrems_ranges (dcs : ℝ → ℝ) (cap size : ℕ) (E M cut : ℝ) (d : Vec3 ℝ)
+    (script : Script ℝ) (i : Interaction ℝ) (sz : ℕ) (rest : Script ℝ) (hcut : 0 < cut)
+    (hE : cut ≤ E) (hc : canonical script) (hd : unitV d)
+    (h : muBremsWith dcs cap size E M cut d script = .done i sz rest) :
+    0 ≤ i.energy ∧ ∃ s, i.secondaries = [s] ∧ s.pid = some pidGamma ∧ cut ≤ s.energy
+      ∧ s.energy ≤ E ∧ unitV s.dir := by
+  obtain ⟨_, _, k, uc, uPhi, u1, hu1, hk, hi⟩ := mubrems_done h
+  obtain ⟨r1, r2⟩ := reciprocal_range cut E u1 hcut hE (hc u1 hu1).1 (le_of_lt (hc u1 hu1).2)
+  rw [← hk] at r1 r2
+  obtain ⟨c1, c2⟩ := muBremsCosTheta_range E M k uc
+  rw [hi]
+  unfold bremFinal
+  inum
+  exact ⟨by show 0 ≤ E - k; linarith, _, rfl, rfl, r1, r2, exitingDirection_unit _ d uPhi c1 c2 hd⟩
+
+/-- `sample_cos_theta`: the argument `a` of `sqrt(a/(1−a))` satisfies `0 ≤ a < 1`, so the
+    quotient is a well-defined non-negative number, and the returned value is a cosine -/
+theorem mubrems_angle_well_defined (E M k u : ℝ) (h0 : 0 ≤ u) (h1 : u < 1) :
+    0 ≤ muBremsAngleArg E M k u ∧ muBremsAngleArg E M k u < 1
+      ∧ -1 ≤ muBremsCosTheta E M k u ∧ muBremsCosTheta E M k u ≤ 1 :=
+  ⟨(muBremsAngleArg_range E M k u h0 h1).1, (muBremsAngleArg_range E M k u h0 h1).2,
+    (muBremsCosTheta_range E M k u).1, (muBremsCosTheta_range E M k u).2⟩
+
+/-! ## Rayleigh scattering: the form-factor sampling loop -/
+
+/-- ★ elastic: energy unchanged, no secondaries, no deposit — for every script -/
+theorem rayleigh_energy_unchanged (p : RayleighParams ℝ) (k1 k2 E : ℝ) (d : Vec3 ℝ)
+    (script : Script ℝ) (i : Interaction ℝ) (rest : Script ℝ)
+    (h : rayleigh p k1 k2 E d script = some (i, rest)) :
+    i.energy = E ∧ i.secondaries = [] ∧ i.deposit = 0 ∧ i.action = .scattered := by
+  unfold rayleigh at h
+  split at h
+  split at h
+  · simp at h
+  · rename_i cost rst _
+    cases rst with
+    | nil => simp at h
+    | cons u tl =>
+      simp only [Option.some.injEq, Prod.mk.injEq] at h
+      rw [← h.1]
+      unfold rayleighFinal
+      inum
+      exact ⟨trivial, trivial, trivial, trivial⟩
+
+/-- every accepted trial has `cos θ ∈ [−1, 1]`: the lower bound is the loop's own exit test,
+    the upper bound needs `x ≥ 0`, i.e. weights in [0,1], `n ≥ ½` (true of the tabulated fit
+    parameters, 0.69 ≤ n ≤ 14), `b > 0` and a positive `factor` -/
+theorem rayleigh_trial_cos_range (p : RayleighParams ℝ) (factor : ℝ) (weight prob : Vec3 ℝ)
+    (u1 u2 u3 c : ℝ) (hf : 0 < factor)
+    (hw : ∀ j, 0 ≤ weight.get j ∧ weight.get j ≤ 1) (hn : ∀ j, 1 / 2 ≤ p.n.get j)
+    (hb : ∀ j, 0 < p.b.get j) (h0 : 0 ≤ u2) (h1 : u2 < 1)
+    (h : rayleighTrial p factor weight prob u1 u2 u3 = (c, false)) : -1 ≤ c ∧ c ≤ 1 := by
+  unfold rayleighTrial at h
+  simp only [Prod.mk.injEq, Bool.or_eq_false_iff] at h
+  obtain ⟨hc, _, hlow⟩ := h
+  inum at hc hlow
+  set j := select3 prob u1
+  have hnj := hn j
+  have hninv0 : 0 < 1 / p.n.get j := by positivity
+  have hninv2 : 1 / p.n.get j ≤ 2 := by
+    rw [div_le_iff₀ (by linarith)]; linarith
+  have hy0 : 0 ≤ weight.get j * u2 := mul_nonneg (hw j).1 h0
+  have hy1 : weight.get j * u2 < 1 := by nlinarith [(hw j).1, (hw j).2]
+  have hx := rayleighX_nonneg _ _ hninv0 hninv2 hy0 hy1
+  have hbf : 0 < p.b.get j * factor := mul_pos (hb j) hf
+  constructor
+  · rw [← hc]; exact hlow
+  · rw [← hc]
+    have : 0 ≤ 2 * rayleighX (1 / p.n.get j) (weight.get j * u2) / (p.b.get j * factor) := by
+      positivity
+    linarith
+
+/-- per-iteration acceptance: a trial whose cosine is ≥ −1 and whose third uniform is ≤ ½ is
+    accepted (`2ξ > 1 + cos²θ` fails) — with independent uniforms the loop needs a geometric
+    number of iterations once the form-factor variable lands in range; no worst-case bound
+    exists for adversarial streams (the model returns `none` when the script is exhausted) -/
+theorem rayleigh_accept_half (p : RayleighParams ℝ) (factor : ℝ) (weight prob : Vec3 ℝ)
+    (u1 u2 u3 : ℝ) (h3 : u3 ≤ 1 / 2)
+    (hc : -1 ≤ (rayleighTrial p factor weight prob u1 u2 u3).1) :
+    (rayleighTrial p factor weight prob u1 u2 u3).2 = false := by
+  unfold rayleighTrial at hc ⊢
+  simp only [Bool.or_eq_false_iff]
+  inum at hc ⊢
+  generalize 1 - 2 * rayleighX (1 / p.n.get (select3 prob u1)) (weight.get (select3 prob u1) * u2)
+    / (p.b.get (select3 prob u1) * factor) = c at hc ⊢
+  constructor
+  · rw [Bool.eq_false_iff]
+    intro hh
+    rw [NumR.gt_real] at hh
+    nlinarith [mul_self_nonneg c]
+  · exact hc
+
+/-- the outgoing direction is a unit vector under the same hypotheses -/
+theorem rayleigh_direction_unit (p : RayleighParams ℝ) (k1 k2 E : ℝ) (d : Vec3 ℝ)
+    (script : Script ℝ) (i : Interaction ℝ) (rest : Script ℝ) (hd : unitV d)
+    (hf : 0 < (rayleighInput p k1 k2 E).1)
+    (hw : ∀ j, 0 ≤ (rayleighInput p k1 k2 E).2.1.get j ∧ (rayleighInput p k1 k2 E).2.1.get j ≤ 1)
+    (hn : ∀ j, 1 / 2 ≤ p.n.get j) (hb : ∀ j, 0 < p.b.get j) (hc : canonical script)
+    (h : rayleigh p k1 k2 E d script = some (i, rest)) : unitV i.dir := by
+  unfold rayleigh at h
+  rcases hin : rayleighInput p k1 k2 E with ⟨factor, weight, prob⟩
+  rw [hin] at h hf hw
+  simp only [] at h hf hw
+  split at h
+  · simp at h
+  · rename_i cost rst hl
+    obtain ⟨u1, u2, u3, _, hu2, _, ht, _⟩ := rayleighLoop_spec _ _ _ _ _ _ _ _ hl
+    obtain ⟨c1, c2⟩ := rayleigh_trial_cos_range p factor weight prob u1 u2 u3 cost hf hw hn hb
+      (hc u2 hu2).1 (hc u2 hu2).2 ht
+    cases rst with
+    | nil => simp at h
+    | cons u tl =>
+      simp only [Option.some.injEq, Prod.mk.injEq] at h
+      rw [← h.1]
+      exact (rayleigh_elastic E cost u d c1 c2 hd).2.2.2
+
+/-! ## bremsstrahlung photon-energy proposal (Seltzer–Berger and relativistic samplers) and the
+    Bethe–Heitler ε formulas above 2 MeV — formulas only; their rejection functions are data -/
+
+/-- the proposal `k = sqrt(k_min² (k_max²/k_min²)^ξ … − k_dc²)` lies in the CLOSED interval
+    `[k_cut, T]` for every ξ ∈ [0, 1] at ℝ.  In floating point `exp(log(k_min² + k_dc²)) − k_dc²`
+    can round below `k_cut²` at ξ = 0 and above `T²` at ξ → 1: exactly the known findings
+    `brems-photon-below-cut-rounding` and `endpoint-negative-energy:brems`. -/
+theorem brems_proposal_in_closed_interval (kcut T dc u : ℝ) (hk : 0 < kcut) (hT : kcut ≤ T)
+    (hdc : 0 ≤ dc) (h0 : 0 ≤ u) (h1 : u ≤ 1) :
+    kcut ≤ bremsProposal kcut T dc u ∧ bremsProposal kcut T dc u ≤ T :=
+  bremsProposal_range kcut T dc u hk hT hdc h0 h1
+
+/-- Bethe–Heitler above 2 MeV: both sampling formulas keep ε ∈ [ε_min, ½]; with
+    `ε_min ≥ ε₀ = m/E` (it is `max(ε₀, ε₁)`) both lepton kinetic energies are ≥ 0.  The exact
+    guard is `ε₀ ≤ ε`: in floating point `ε·E − m` rounds negative only when ε is within rounding
+    of ε₀ (known finding `endpoint-negative-energy:pair`). -/
+theorem bh_high_energy_leptons_nonneg (E m epsMin t : ℝ) (hE : 0 < E) (hm : 2 * m ≤ E)
+    (he0 : m / E ≤ epsMin) (he : epsMin ≤ 1 / 2) (h0 : 0 ≤ t) (h1 : t ≤ 1) :
+    (0 ≤ (bhSplit E m (bhEpsF1 epsMin t)).1 ∧ 0 ≤ (bhSplit E m (bhEpsF1 epsMin t)).2)
+      ∧ (0 ≤ (bhSplit E m (bhEpsF2 epsMin t)).1 ∧ 0 ≤ (bhSplit E m (bhEpsF2 epsMin t)).2) := by
+  obtain ⟨⟨a1, a2⟩, ⟨b1, b2⟩⟩ := bhEps_range epsMin t he h0 h1
+  exact ⟨bhSplit_nonneg E m _ hE (le_trans he0 a1) a2 hm,
+    bhSplit_nonneg E m _ hE (le_trans he0 b1) b2 hm⟩
+
 /-! ## non-vacuity -/
 
 /-- the hypotheses of the momentum theorems are satisfiable: +z is a unit, `rotOK` direction -/
@@ -755,5 +914,22 @@ example : atomicRelaxation [[(⟨1, none, 1, 1 / 1000⟩ : Transition ℝ)]] 0 (
   unfold atomicRelaxation
   simp only [List.length_cons, List.length_nil, relaxLoop, List.getElem?_cons_zero, hs, hg, if_true]
   simp [relaxLoop, NumR.lit0, NumR.hadd_real]
+
+/-- Rayleigh / muon-brems hypotheses are satisfiable: a weight in [0,1], n ≥ ½, b > 0, and a
+    canonical uniform -/
+example : (0 : ℝ) ≤ 1 / 2 ∧ (1 / 2 : ℝ) ≤ 1 ∧ (1 / 2 : ℝ) ≤ 3 ∧ (0 : ℝ) < 1e-16 ∧ (0 : ℝ) ≤ 1 / 4
+    ∧ (1 / 4 : ℝ) < 1 := by norm_num
+
+/-- the closed-interval statement is attained at both ends: ξ = 0 gives k_cut, ξ = 1 gives T -/
+example : bremsProposal (1 : ℝ) 2 3 0 = 1 ∧ bremsProposal (1 : ℝ) 2 3 1 = 2 := by
+  unfold bremsProposal reciprocal
+  inum
+  constructor
+  · norm_num
+  · have h : Real.exp (Real.log (1 / (1 * 1 + 3) * (2 * 2 + 3)) * 1) = 7 / 4 := by
+      rw [mul_one, Real.exp_log (by norm_num)]; norm_num
+    rw [h]
+    have : ((1 : ℝ) * 1 + 3) * (7 / 4) - 3 = 2 * 2 := by norm_num
+    rw [this, Real.sqrt_mul_self (by norm_num)]
 
 end CelerVerif.Interact
